@@ -772,7 +772,7 @@ func idleReader(r *Reader) bool {
 //@ func Reader.reset
 //@   props C04 C07 C18
 //@   ensures [idle] idleReader(r)
-//@   ensures [same] r.Source == old(r.Source) && r.State == old(r.State) && r.cr == old(r.cr) && r.CheckUTF8 == old(r.CheckUTF8) && r.SkipHeaderCheck == old(r.SkipHeaderCheck) && r.MaxFrameSize == old(r.MaxFrameSize)
+//@   ensures [same] r.Source == old(r.Source) && r.State == old(r.State) && r.cr == old(r.cr) && r.CheckUTF8 == old(r.CheckUTF8) && r.SkipHeaderCheck == old(r.SkipHeaderCheck) && r.MaxFrameSize == old(r.MaxFrameSize) && r.State&^ws.StateFragmented == old(r.State)&^ws.StateFragmented
 //@   assigns r.raw, r.frame, r.utf8, r.opCode
 
 //@ func Reader.resetFragment
@@ -842,7 +842,7 @@ func sameHdrButRsv(a, b ws.Header) bool {
 //@   ensures  [chain] len(r.Extensions) == 0 && hdrAccepted(r, r.Source, old(inPos(r.Source)), old(r.State)) && !(old(r.State)&ws.StateFragmented != 0 && hdr.OpCode >= 8) ==> (hdr.Masked ==> r.cr != nil && r.cr.r == io.Reader(&r.raw) && r.cr.mask == hdr.Mask && r.cr.pos == 0) && (specUTF8Wanted(r, hdr, old(r.State), r.opCode) ==> r.frame == io.Reader(&r.utf8) && r.utf8.state == old(r.utf8.state) && r.utf8.Source == iteReader(hdr.Masked, io.Reader(r.cr), io.Reader(&r.raw))) && (!specUTF8Wanted(r, hdr, old(r.State), r.opCode) ==> r.frame == iteReader(hdr.Masked, io.Reader(r.cr), io.Reader(&r.raw)) && r.utf8.state == old(r.utf8.state))
 //@   ensures  [ctl]   len(r.Extensions) == 0 && hdrAccepted(r, r.Source, old(inPos(r.Source)), old(r.State)) && old(r.State)&ws.StateFragmented != 0 && hdr.OpCode >= 8 ==> r.State == old(r.State) && r.opCode == old(r.opCode) && r.utf8.state == old(r.utf8.state) && r.frame == old(r.frame) && (err == nil ==> r.raw.N == 0) && r.raw.R == r.Source
 //@   ensures  [mono]  inPos(r.Source) >= old(inPos(r.Source))
-//@   ensures  [cfg]   len(r.Extensions) == old(len(r.Extensions)) && r.OnContinuation == nil
+//@   ensures  [cfg]   len(r.Extensions) == old(len(r.Extensions)) && r.OnContinuation == nil && sameFunc(r.OnIntermediate, old(r.OnIntermediate)) && r.SkipHeaderCheck == old(r.SkipHeaderCheck) && r.MaxFrameSize == old(r.MaxFrameSize)
 //@   ensures  [inv]   invReader(r) && streamOK(r.Source) && r.Source == old(r.Source) && r.CheckUTF8 == old(r.CheckUTF8)
 //@   assigns *r, *r.cr, instream(r.Source)
 //@   loop 1 invariant [hdr] sameHdrButRsv(hdr, ws.VSpecDecode(r.Source, old(inPos(r.Source)))) && err == nil && -1 <= rangeIdx() && rangeIdx() < len(r.Extensions)
@@ -899,6 +899,9 @@ func iteReader(c bool, a, b io.Reader) io.Reader {
 //@   ensures  [idle] idleReader(r) && r.Source == old(r.Source)
 //@   ensures  [whole] err == nil ==> r.State&ws.StateFragmented == 0
 //@   ensures  [cut]  err == nil ==> inEnd(r.Source)-old(inPos(r.Source)) >= int(old(r.raw.N))
+//@   ensures  [cfg]  sameFunc(r.OnIntermediate, old(r.OnIntermediate)) && r.CheckUTF8 == old(r.CheckUTF8) && r.SkipHeaderCheck == old(r.SkipHeaderCheck) && r.State&^ws.StateFragmented == old(r.State)&^ws.StateFragmented && len(r.Extensions) == 0 && r.OnContinuation == nil
+//@   ensures  [inv]  invReader(r) && streamOK(r.Source)
+//@   loop 1 invariant [same] sameFunc(r.OnIntermediate, old(r.OnIntermediate)) && r.CheckUTF8 == old(r.CheckUTF8) && r.SkipHeaderCheck == old(r.SkipHeaderCheck) && r.State&^ws.StateFragmented == old(r.State)&^ws.StateFragmented
 //@   loop 1 invariant [inv] invReader(r) && streamOK(r.Source)
 //@   loop 1 invariant [raw] r.raw.R == r.Source && r.Source == old(r.Source)
 //@   loop 1 invariant [cfg] len(r.Extensions) == 0 && r.OnContinuation == nil
@@ -1040,6 +1043,34 @@ func iteReader(c bool, a, b io.Reader) io.Reader {
 //@   call ws.Dialer.Dial havoc
 //@   requires [d] d != nil
 //@   ensures [t] true
+
+// sameFunc: identity of two function values (ghost; Go has no == on them).
+func sameFunc(a, b FrameHandlerFunc) bool { panic("ghost: sameFunc is not executable") }
+
+// ufIsCtlHandler: f is the handler ControlFrameHandler(w, s) returns (a closure over w and s that
+// runs ControlHandler{Src: the frame, Dst: w, State: s, DisableSrcCiphering: true}.Handle).
+func ufIsCtlHandler(f FrameHandlerFunc, w io.Writer, s ws.State) bool { return true }
+
+//@ func ControlFrameHandler
+//@   trusted
+//@   ensures [is] result != nil && ufIsCtlHandler(result, w, state)
+//@   assigns nothing
+
+// readData (C08), behind ReadData/ReadClientData/ReadServerData and the Text/Binary helpers: the
+// reader it builds answers control frames with this connection's handler -- between the fragments
+// of a message through OnIntermediate, between messages by the explicit call -- and checks headers
+// and UTF-8. The handler itself is a black box here (its replies are the HandlePing/HandleClose
+// contracts); that it drains the frame it is given is assumed.
+//@ func readData
+//@   props C08
+//@   call ReadAll havoc
+//@   callsite Reader.NextFrame requires [wired] ufIsCtlHandler(rd.OnIntermediate, rw, s) && rd.Source == io.Reader(rw) && rd.State&^ws.StateFragmented == s&^ws.StateFragmented && rd.CheckUTF8 && !rd.SkipHeaderCheck
+//@   invoke callback:wsutil.FrameHandlerFunc requires [handler] ufIsCtlHandler(c_self, rw, s) && c_src == io.Reader(&rd)
+//@   invoke callback:wsutil.FrameHandlerFunc assigns (&rd).frame, (&rd).opCode, (&(&rd).raw).N, (&(&rd).raw).R, (&(&rd).utf8).Source, (&(&rd).utf8).state, (&(&rd).utf8).codep, (&(&rd).utf8).accepted, rd.cr.pos, instream(rw), outstream(rw)
+//@   invoke callback:wsutil.FrameHandlerFunc ensures [drained] c_err == nil ==> invReader(&rd) && streamOK(rw) && rd.raw.N == 0
+//@   requires [rw] rw != nil && streamOK(rw)
+//@   loop 1 invariant [cfg] ufIsCtlHandler(rd.OnIntermediate, rw, s) && rd.Source == io.Reader(rw) && rd.CheckUTF8 && !rd.SkipHeaderCheck && rd.OnContinuation == nil && len(rd.Extensions) == 0 && rd.State&^ws.StateFragmented == s&^ws.StateFragmented
+//@   loop 1 invariant [inv] invReader(&rd) && streamOK(rw) && rd.raw.N == 0 && ufIsCtlHandler(controlHandler, rw, s)
 
 // ReadMessage's collector of intermediate control frames (C04, C17): every collected message owns
 // a fresh copy of its payload.
